@@ -90,7 +90,7 @@ fn lw_hostile(tag: &str, cfg: LwCfg, script: Vec<Op>, rounds: usize, pairs: bool
         };
         let tr = run_lw(&cfg, &si, &env, ch, Some(&mut inj));
         if verbose() { print_trace(&cfg, &si, &tr); }
-        ExecResult { violations: vec![], panic: None, outcome: outcome_hash(&tr), states: state_hashes(&tr), transitions: tr.obs.len() as u64, witnesses: witnesses(&cfg, &si, &tr) | 1 << 16,
+        ExecResult { violations: vec![], panic: None, outcome: outcome_hash(&tr), states: state_hashes(&tr), transitions: tr.obs.len() as u64, witnesses: witnesses(&cfg, &si, &tr) | 1 << 20,
                      sample: if r1 == 2 && ch.taken.iter().map(|x| *x as usize).sum::<usize>() % 41 == 7 { Some(format!("hostile frame choices {:?} in session {}", ch.taken, si.name)) } else { None } }
     };
     Scenario { name, d: 0, run: Box::new(run) }
@@ -130,7 +130,7 @@ fn ew_flood(tb: u8, maxlen: usize) -> Scenario {
         let mut c0 = Chooser::new(vec![], vec![]);
         let tr = run_ew(&cfg, &script, &env, &mut c0);
         let violations = honest_echo_ok(&tr, 1);
-        ExecResult { violations, panic: None, outcome: ew_outcome(&tr) ^ (tb as u64) << 24, states: vec![], transitions: count as u64, witnesses: ew_witnesses(&tr) << 17, sample: if tb == 10 { Some(format!("type byte {}: {} datagrams (every payload of <= {} bytes, valid CRC) from the connected address, a stranger, and towards the client", tb, count, maxlen)) } else { None } }
+        ExecResult { violations, panic: None, outcome: ew_outcome(&tr) ^ (tb as u64) << 24, states: vec![], transitions: count as u64, witnesses: ew_witnesses(&tr) << 32, sample: if tb == 10 { Some(format!("type byte {}: {} datagrams (every payload of <= {} bytes, valid CRC) from the connected address, a stranger, and towards the client", tb, count, maxlen)) } else { None } }
     };
     Scenario { name, d: 0, run: Box::new(run) }
 }
@@ -156,6 +156,13 @@ pub fn extreme_frames() -> Vec<(String, Vec<u8>)> {
     } }
     for a in [None, Some(0u32), Some(0x1111_1111 + 5000), Some(0x2222_2222 + 4096), Some(0xFFFF_FFFF)] { for b in [None, Some(0u32), Some(0x11111 + 4096), Some(0x22222 + 4097), Some(0xFFFF_FFFF)] {
         v.push((format!("sync {:x?} {:x?}", a, b), fw(Frame::SyncFrame(SyncFrame { next_frame_id: a, next_packet_id: b }))));
+    } }
+    // datagrams too short to hold a type byte and a CRC, and the shortest ones with a valid CRC (the CRC of the empty string is 0)
+    for n in 0..=8usize { v.push((format!("{} zero bytes", n), vec![0u8; n])); v.push((format!("{} bytes 0xFF", n), vec![0xFF; n])); }
+    for n in 0..=3usize { for b in [0u8, 1, 4, 13, 255] {
+        let mut d = vec![b; n]; let c = uflow::verif::crc_compute(&d); d.extend_from_slice(&c.to_be_bytes());
+        v.push((format!("{} bytes {:#x} + their CRC", n, b), d));
+        if n == 0 { break; }
     } }
     v
 }
@@ -184,7 +191,7 @@ fn ew_states(pairs: bool) -> Scenario {
         let tr = run_ew(&cfg, &script, &env, &mut c0);
         if verbose() { print_ew(&cfg, &tr); }
         let violations = honest_echo_ok(&tr, 1);
-        ExecResult { violations, panic: None, outcome: ew_outcome(&tr) ^ (a as u64) << 20 ^ (variant as u64) << 40, states: crate::ew::ew_states(&tr), transitions: tr.obs.len() as u64 * 3, witnesses: ew_witnesses(&tr) << 17,
+        ExecResult { violations, panic: None, outcome: ew_outcome(&tr) ^ (a as u64) << 20 ^ (variant as u64) << 40, states: crate::ew::ew_states(&tr), transitions: tr.obs.len() as u64 * 3, witnesses: ew_witnesses(&tr) << 32,
                      sample: if r == 5 && a % 29 == 3 { Some(format!("state variant {} round {} direction {}: {}", variant, r, dir, alpha[a].0)) } else { None } }
     };
     Scenario { name, d: 0, run: Box::new(run) }
@@ -215,5 +222,5 @@ pub fn build(quick: bool) -> PropRun {
         bounds: json!({"lw_rounds": if quick { 8 } else { 12 }, "lw_pairs": !quick, "flood_payload_len": if quick { 1 } else { 2 }, "flood_type_bytes": if quick { "0-13, 32, 64, ..., 250-255" } else { "all 256" }, "extreme_frames": extreme_frames().len(), "tfrc_plans": plans, "fuel_per_call": 2_000_000}),
         assumptions: vec!["build profile: release with debug-assertions and overflow-checks on, so a debug_assert or arithmetic overflow reachable from network input counts as a panic".into(),
                           "a hostile peer may legitimately ruin its own connection; what is asked is that no call panics or fails to return and that other connections are still served".into()],
-        witness_names: { let mut w = WITNESSES.to_vec(); w.push("hostile frame injected"); w }, extra: json!({}), exhaustive: true } }
+        witness_names: { let mut w = WITNESSES.to_vec(); while w.len() < 20 { w.push("-"); } w.push("hostile frame injected"); while w.len() < 32 { w.push("-"); } w.extend_from_slice(crate::eprops::EW_WITNESSES); w }, extra: json!({}), exhaustive: true } }
 }
